@@ -1665,5 +1665,335 @@ impl BS {
 #[verifier::external_body]
 pub fn pow2_u32(e: u8) -> (r: u32) requires e <= 20 ensures r as int == pow2(e as nat), 1 <= r <= 0x10_0000 { 2u32.pow(e.into()) }
 
+impl RegionTracker {
+    pub open spec fn regions(&self) -> u32 { self.order_trackers@[0].leaf().len }
+    pub open spec fn may_be_free(&self, o: int, r: int) -> bool { !self.order_trackers@[o].leaf().bit_at(r) }
+    pub open spec fn wf(&self) -> bool {
+        1 <= self.order_trackers@.len() <= 32
+        && forall|o: int| 0 <= o < self.order_trackers@.len() ==> (#[trigger] self.order_trackers@[o]).wf()
+               && self.order_trackers@[o].leaf().len == self.order_trackers@[0].leaf().len
+    }
+}
+// Tracks the page orders that MAY BE free in each region. This data structure is optimistic, so
+// a region may not actually have a page free for a given order
+pub struct RegionTracker {
+    pub order_trackers: Vec<BtreeBitmap>,
+}
+
+impl RegionTracker {
+    pub fn find_free(&self, order: u8) -> (r: Option<u32>)
+        requires self.wf(), (order as int) < self.order_trackers@.len(),
+        ensures match r {
+            Some(x) => x < self.regions() && self.may_be_free(order as int, x as int)
+                && forall|y: int| 0 <= y < x ==> !#[trigger] self.may_be_free(order as int, y),
+            None => forall|y: int| 0 <= y < self.regions() ==> !#[trigger] self.may_be_free(order as int, y),
+        },
+    {
+        self.order_trackers[order as usize].find_first_unset()
+    }
+
+    pub fn mark_free(&mut self, order: u8, region: u32)
+        requires old(self).wf(), (order as int) < old(self).order_trackers@.len(), region < old(self).regions(),
+        ensures final(self).wf(), final(self).regions() == old(self).regions(),
+            final(self).order_trackers@.len() == old(self).order_trackers@.len(),
+            forall|o: int, r: int| 0 <= o < old(self).order_trackers@.len() && 0 <= r < old(self).regions() ==>
+                #[trigger] final(self).may_be_free(o, r) == (old(self).may_be_free(o, r) || (o <= order && r == region)),
+    {
+        let order: usize = order.into();
+        for i in iter: 0..=order
+            invariant
+                self.wf(), self.regions() == old(self).regions(), order < self.order_trackers@.len(),
+                self.order_trackers@.len() == old(self).order_trackers@.len(), region < self.regions(),
+                forall|o: int, r: int| 0 <= o < old(self).order_trackers@.len() && 0 <= r < old(self).regions() ==>
+                    #[trigger] self.may_be_free(o, r) == (old(self).may_be_free(o, r) || (o < i && r == region)),
+        {
+            let ghost pre = *self;
+            assert(self.order_trackers@[i as int].wf());
+            self.order_trackers[i].clear(region);
+            proof {
+                assert forall|o: int| 0 <= o < self.order_trackers@.len() && o != i implies #[trigger] self.order_trackers@[o] == pre.order_trackers@[o] by {}
+                assert forall|o: int, r: int| 0 <= o < old(self).order_trackers@.len() && 0 <= r < old(self).regions() implies
+                    #[trigger] self.may_be_free(o, r) == (old(self).may_be_free(o, r) || (o < i + 1 && r == region)) by {
+                    assert(pre.may_be_free(o, r) == (old(self).may_be_free(o, r) || (o < i && r == region)));
+                }
+            }
+        }
+    }
+
+    pub fn mark_full(&mut self, order: u8, region: u32)
+        requires old(self).wf(), (order as int) < old(self).order_trackers@.len(), region < old(self).regions(),
+        ensures final(self).wf(), final(self).regions() == old(self).regions(),
+            final(self).order_trackers@.len() == old(self).order_trackers@.len(),
+            forall|o: int, r: int| 0 <= o < old(self).order_trackers@.len() && 0 <= r < old(self).regions() ==>
+                #[trigger] final(self).may_be_free(o, r) == (old(self).may_be_free(o, r) && !(o >= order && r == region)),
+    {
+        let order: usize = order.into();
+        assert!(order < self.order_trackers.len());
+        let ghost n = self.order_trackers@.len();
+        for i in iter: order..self.order_trackers.len()
+            invariant
+                self.wf(), self.regions() == old(self).regions(), n == old(self).order_trackers@.len(),
+                self.order_trackers@.len() == n, region < self.regions(), order <= n,
+                forall|o: int, r: int| 0 <= o < n && 0 <= r < old(self).regions() ==>
+                    #[trigger] self.may_be_free(o, r) == (old(self).may_be_free(o, r) && !(order <= o < i && r == region)),
+        {
+            let ghost pre = *self;
+            assert(self.order_trackers@[i as int].wf());
+            self.order_trackers[i].set(region);
+            proof {
+                assert forall|o: int| 0 <= o < self.order_trackers@.len() && o != i implies #[trigger] self.order_trackers@[o] == pre.order_trackers@[o] by {}
+                assert forall|o: int, r: int| 0 <= o < n && 0 <= r < old(self).regions() implies
+                    #[trigger] self.may_be_free(o, r) == (old(self).may_be_free(o, r) && !(order <= o < i + 1 && r == region)) by {
+                    assert(pre.may_be_free(o, r) == (old(self).may_be_free(o, r) && !(order <= o < i && r == region)));
+                }
+            }
+        }
+    }
+
+    fn len(&self) -> (r: u32)
+        requires self.wf(),
+        ensures r == self.regions(),
+    {
+        self.order_trackers[0].len()
+    }
+}
+
+
+// ---------------------------------------------------------------- probe-only declarations
+pub const MAX_PAGE_INDEX: u32 = 0x000F_FFFF;
+#[verifier::external_body]
+pub struct DatabaseHeader { _p: u8 }
+#[verifier::external_body]
+pub struct StorageError { _p: u8 }
+pub type Result<T> = core::result::Result<T, StorageError>;
+
+pub struct PageNumber { pub region: u32, pub page_index: u32, pub page_order: u8 }
+impl PageNumber {
+    pub fn new(region: u32, page_index: u32, page_order: u8) -> (r: Self)
+        requires region <= 0x000F_FFFF, page_index <= MAX_PAGE_INDEX, page_order <= MAX_MAX_PAGE_ORDER,
+        ensures r.region == region, r.page_index == page_index, r.page_order == page_order,
+    {
+        debug_assert!(region <= 0x000F_FFFF);
+        debug_assert!(page_index <= MAX_PAGE_INDEX);
+        debug_assert!(page_order <= MAX_MAX_PAGE_ORDER);
+        Self {
+            region,
+            page_index,
+            page_order,
+        }
+    }
+}
+
+pub struct Allocators { pub region_tracker: RegionTracker, pub region_allocators: Vec<BuddyAllocator> }
+pub struct InMemoryState { pub header: DatabaseHeader, pub allocators: Option<Allocators>, pub read_from_secondary: bool }
+
+impl BuddyAllocator {
+    // ASSUMED in this probe (alloc_lowest is not verified yet): same contract as `alloc`
+    #[verifier::external_body]
+    pub fn alloc_lowest(&mut self, order: u8) -> (r: Option<u32>)
+        requires old(self).wf2(),
+        ensures final(self).wf2(), final(self).same_shape(*old(self)),
+            r matches Some(p) ==> order <= old(self).max_order && (p as int) < old(self).ord(order as int).len
+                && old(self).st().cov(order as int, p as int) && !final(self).st().cov(order as int, p as int),
+            r matches Some(p) ==> forall|k: int, y: int| 0 <= k <= order ==> #[trigger] final(self).st().cov(k, y)
+                    == (old(self).st().cov(k, y) && !is_anc(k, y, order as int, p as int)),
+            r matches Some(p) ==> forall|j: int, y: int| #[trigger] final(self).st().a(j, y) ==> old(self).st().cov(j, y),
+            r is None ==> final(self).free@ == old(self).free@,
+            r is None ==> forall|k: int, q: int| order <= k ==> !#[trigger] old(self).st().a(k, q),
+    { unimplemented!() }
+}
+
+impl Allocators {
+    pub open spec fn nreg(&self) -> int { self.region_allocators@.len() as int }
+    pub open spec fn has_free_ge(&self, r: int, o: int) -> bool {
+        exists|k: int, q: int| o <= k && #[trigger] self.region_allocators@[r].st().a(k, q)
+    }
+    pub open spec fn wf(&self) -> bool {
+        self.region_tracker.wf() && self.region_tracker.order_trackers@.len() == 21
+        && self.nreg() <= self.region_tracker.regions()
+        && self.region_tracker.regions() <= 0x10_0000
+        && (forall|r: int| 0 <= r < self.nreg() ==> (#[trigger] self.region_allocators@[r]).wf2() && self.region_allocators@[r].len <= 0x10_0000)
+        // tracker only ever points at existing regions
+        && (forall|o: int, r: int| 0 <= o < 21 && 0 <= r < self.region_tracker.regions() && #[trigger] self.region_tracker.may_be_free(o, r) ==> r < self.nreg())
+    }
+    // TRK: a region holding a free block of order >= o is never reported full at order o
+    pub open spec fn trk(&self) -> bool {
+        forall|r: int, o: int| 0 <= r < self.nreg() && 0 <= o < 21 && #[trigger] self.has_free_ge(r, o) ==> self.region_tracker.may_be_free(o, r)
+    }
+}
+
+impl BS {
+    pub proof fn lemma_cov_has_free(&self, j: int, y: int)
+        requires self.cov(j, y), 0 <= j,
+        ensures exists|k: int, q: int| j <= k && #[trigger] self.a(k, q),
+        decreases self.m + 1 - j,
+    {
+        if !self.a(j, y) { self.lemma_cov_has_free(j + 1, y / 2); }
+    }
+}
+impl BuddyAllocator {
+    pub proof fn lemma_len_bounds(&self, k: int)
+        requires self.shape(), self.len <= 0x10_0000, 0 <= k <= self.max_order,
+        ensures self.ord(k).len <= 0x10_0000,
+    {
+        lemma_pow2_pos(k as nat);
+        assert(self.free@[k].leaf().len as int == self.len as int / pow2(k as nat));
+        vstd::arithmetic::div_mod::lemma_div_is_ordered_by_denominator(self.len as int, 1, pow2(k as nat));
+    }
+}
+impl Allocators {
+    // a successful alloc in region c keeps TRK: every free block afterwards lies under a block that was free before
+    pub proof fn lemma_trk_after_alloc(a: Allocators, b: Allocators, c: int)
+        requires a.wf(), a.trk(), 0 <= c < a.nreg(), b.region_tracker == a.region_tracker,
+            b.region_allocators@.len() == a.region_allocators@.len(),
+            forall|r: int| 0 <= r < a.nreg() && r != c ==> #[trigger] b.region_allocators@[r] == a.region_allocators@[r],
+            b.region_allocators@[c].wf2(), b.region_allocators@[c].len == a.region_allocators@[c].len,
+            forall|j: int, y: int| #[trigger] b.region_allocators@[c].st().a(j, y) ==> a.region_allocators@[c].st().cov(j, y),
+        ensures b.wf(), b.trk(),
+    {
+        assert forall|r: int, o: int| 0 <= r < b.nreg() && 0 <= o < 21 && #[trigger] b.has_free_ge(r, o) implies b.region_tracker.may_be_free(o, r) by {
+            if r == c {
+                let (k, q) = choose|k: int, q: int| o <= k && #[trigger] b.region_allocators@[c].st().a(k, q);
+                a.region_allocators@[c].st().lemma_cov_has_free(k, q);
+                assert(a.has_free_ge(c, o));
+            } else {
+                assert(a.has_free_ge(r, o));
+            }
+        }
+    }
+    // two allocator sets with the same tracker and the same ghost states are interchangeable
+    pub proof fn lemma_same_states(a: Allocators, b: Allocators)
+        requires a.wf(), a.trk(), b.region_tracker == a.region_tracker, b.nreg() == a.nreg(),
+            forall|r: int| 0 <= r < a.nreg() ==> (#[trigger] b.region_allocators@[r]).st() == a.region_allocators@[r].st()
+                && b.region_allocators@[r].wf2() && b.region_allocators@[r].len == a.region_allocators@[r].len,
+        ensures b.wf(), b.trk(),
+    {
+        assert forall|r: int, o: int| 0 <= r < b.nreg() && 0 <= o < 21 && #[trigger] b.has_free_ge(r, o) implies b.region_tracker.may_be_free(o, r) by {
+            assert(a.has_free_ge(r, o));
+        }
+    }
+    // alloc(o) failed in region c (nothing of order >= o is free there); marking it full at orders >= o keeps TRK
+    pub proof fn lemma_trk_after_full(a: Allocators, b: Allocators, c: int, o: int)
+        requires a.wf(), a.trk(), 0 <= c < a.nreg(), 0 <= o < 21,
+            b.region_allocators == a.region_allocators, b.region_tracker.wf(),
+            b.region_tracker.regions() == a.region_tracker.regions(), b.region_tracker.order_trackers@.len() == 21,
+            forall|k: int, q: int| o <= k ==> !#[trigger] a.region_allocators@[c].st().a(k, q),
+            forall|o2: int, r: int| 0 <= o2 < 21 && 0 <= r < a.region_tracker.regions() ==>
+                #[trigger] b.region_tracker.may_be_free(o2, r) == (a.region_tracker.may_be_free(o2, r) && !(o2 >= o && r == c)),
+        ensures b.wf(), b.trk(),
+    {
+        assert forall|r: int, o2: int| 0 <= r < b.nreg() && 0 <= o2 < 21 && #[trigger] b.has_free_ge(r, o2) implies b.region_tracker.may_be_free(o2, r) by {
+            assert(a.has_free_ge(r, o2));
+        }
+    }
+}
+impl InMemoryState {
+    pub fn allocators_mut(&mut self) -> (r: &mut Allocators)
+        requires old(self).allocators.is_some(),
+        ensures *r == old(self).allocators.unwrap(), final(self).allocators == Some(*final(r)),
+    {
+        self.allocators
+            .as_mut()
+            .expect("allocators have not been loaded yet")
+    }
+
+    pub fn get_region_mut(&mut self, region: u32) -> (r: &mut BuddyAllocator)
+        requires old(self).allocators.is_some(), (region as int) < old(self).allocators.unwrap().nreg(),
+        ensures *r == old(self).allocators.unwrap().region_allocators@[region as int],
+            final(self).allocators.is_some(),
+            final(self).allocators.unwrap().region_tracker == old(self).allocators.unwrap().region_tracker,
+            final(self).allocators.unwrap().region_allocators@ == old(self).allocators.unwrap().region_allocators@.update(region as int, *final(r)),
+    {
+        &mut self.allocators_mut().region_allocators[region as usize]
+    }
+
+    pub fn get_region_tracker_mut(&mut self) -> (r: &mut RegionTracker)
+        requires old(self).allocators.is_some(),
+        ensures *r == old(self).allocators.unwrap().region_tracker,
+            final(self).allocators.is_some(),
+            final(self).allocators.unwrap().region_tracker == *final(r),
+            final(self).allocators.unwrap().region_allocators == old(self).allocators.unwrap().region_allocators,
+    {
+        &mut self.allocators_mut().region_tracker
+    }
+
+
+    #[verifier::exec_allows_no_decreases_clause]
+    pub fn allocate_helper_retry(
+        state: &mut InMemoryState,
+        required_order: u8,
+        lowest: bool,
+    ) -> (res: Result<Option<PageNumber>>)
+        requires old(state).allocators.is_some(), old(state).allocators.unwrap().wf(), old(state).allocators.unwrap().trk(),
+            required_order <= 20,
+        ensures final(state).allocators.is_some(), final(state).allocators.unwrap().wf(), final(state).allocators.unwrap().trk(),
+            final(state).allocators.unwrap().nreg() == old(state).allocators.unwrap().nreg(),
+            res is Ok,
+            res matches Ok(Some(pn)) ==> pn.page_order == required_order && (pn.region as int) < old(state).allocators.unwrap().nreg()
+                && old(state).allocators.unwrap().region_allocators@[pn.region as int].st().cov(required_order as int, pn.page_index as int)
+                && !final(state).allocators.unwrap().region_allocators@[pn.region as int].st().cov(required_order as int, pn.page_index as int),
+            // refused only when no region holds a free block of that order or larger
+            res matches Ok(None) ==> forall|r: int, k: int, q: int| 0 <= r < old(state).allocators.unwrap().nreg() && required_order <= k
+                ==> !#[trigger] old(state).allocators.unwrap().region_allocators@[r].st().a(k, q),
+    {
+        loop
+            invariant
+                state.allocators.is_some(), state.allocators.unwrap().wf(), state.allocators.unwrap().trk(), required_order <= 20,
+                state.allocators.unwrap().nreg() == old(state).allocators.unwrap().nreg(),
+                forall|r: int| 0 <= r < state.allocators.unwrap().nreg() ==>
+                    (#[trigger] state.allocators.unwrap().region_allocators@[r]).st() == old(state).allocators.unwrap().region_allocators@[r].st(),
+        {
+            let ghost a0 = state.allocators.unwrap();
+            let Some(candidate_region) = state.get_region_tracker_mut().find_free(required_order)
+            else {
+                proof {
+                    let o0 = old(state).allocators.unwrap();
+                    assert forall|r: int, k: int, q: int| 0 <= r < o0.nreg() && required_order <= k
+                        implies !#[trigger] o0.region_allocators@[r].st().a(k, q) by {
+                        assert(a0.region_allocators@[r].st() == o0.region_allocators@[r].st());
+                        if a0.region_allocators@[r].st().a(k, q) {
+                            assert(a0.has_free_ge(r, required_order as int));
+                            assert(a0.region_tracker.may_be_free(required_order as int, r));
+                        }
+                    }
+                }
+                return Ok(None);
+            };
+            proof { assert(a0.region_tracker.may_be_free(required_order as int, candidate_region as int)); }
+            let region = state.get_region_mut(candidate_region);
+            let r = if lowest {
+                region.alloc_lowest(required_order)
+            } else {
+                region.alloc(required_order)
+            };
+            let ghost a1 = state.allocators.unwrap();
+            if let Some(page) = r {
+                proof {
+                    Allocators::lemma_trk_after_alloc(a0, a1, candidate_region as int);
+                    a0.region_allocators@[candidate_region as int].lemma_len_bounds(required_order as int);
+                }
+                return Ok(Some(PageNumber::new(
+                    candidate_region,
+                    page,
+                    required_order,
+                )));
+            }
+            // Mark the region, if it's full
+            proof {
+                let c = candidate_region as int;
+                assert(a1.region_allocators@[c].free@ == a0.region_allocators@[c].free@);
+                assert(a1.region_allocators@[c].st() == a0.region_allocators@[c].st());
+                assert forall|r: int| 0 <= r < a1.nreg() implies (#[trigger] a1.region_allocators@[r]).st() == a0.region_allocators@[r].st() by {}
+                Allocators::lemma_same_states(a0, a1);
+            }
+            state
+                .get_region_tracker_mut()
+                .mark_full(required_order, candidate_region);
+            proof { Allocators::lemma_trk_after_full(a1, state.allocators.unwrap(), candidate_region as int, required_order as int); }
+        }
+    }
+
+}
+
 fn main() {}
 }
